@@ -156,9 +156,7 @@ Qed.
 Lemma hyphen_p_len s b r : hyphen_p s = Some (b, r) -> length r < length s.
 Proof.
   unfold hyphen_p.
-  assert (H0 : length (snd (match partial_version s with Some (p, r0) => (Some p, r0) | None => (None, s) end)) <= length s).
-  { destruct (partial_version s) as [[p r0]|] eqn:E; cbn; [apply partial_version_len in E|]; lia. }
-  destruct (match partial_version s with Some (p, r0) => (Some p, r0) | None => (None, s) end) as [lower s1]. cbn in H0.
+  destruct (partial_version s) as [[lower s1]|] eqn:E0; [|discriminate]. apply partial_version_len in E0.
   destruct (space1 s1) as [s2|] eqn:E1; [|discriminate]. apply space1_len in E1.
   destruct (lit1 45 s2) as [s3|] eqn:El; [|discriminate]. apply lit1_len in El.
   destruct (space1 s3) as [s4|] eqn:E2; [|discriminate]. apply space1_len in E2.
@@ -182,8 +180,6 @@ Qed.
 Lemma simple_len s b r : simple s = (b, r) -> length r <= length s.
 Proof.
   unfold simple.
-  destruct (terminated_p hyphen_p s) as [[b0 r0]|] eqn:E1.
-  { intros [= _ <-]. apply terminated_p_len in E1; [lia|apply hyphen_p_len]. }
   destruct (terminated_p primitive_p s) as [[b0 r0]|] eqn:E2.
   { intros [= _ <-]. apply terminated_p_len in E2; [lia|apply primitive_p_len]. }
   destruct (terminated_p partial_p s) as [[b0 r0]|] eqn:E3.
@@ -206,11 +202,16 @@ Proof.
       rewrite Hst. exists (b :: l), r. split; auto. lia.
     + exists [], s. auto.
 Qed.
-Lemma range_p_total s : exists bs r, range_p s = Some (bs, r) /\ length r <= length s.
+Lemma simples_p_total s : exists bs r, simples_p s = Some (bs, r) /\ length r <= length s.
 Proof.
-  unfold range_p. destruct (simple s) as [b s1] eqn:E. pose proof (simple_len _ _ _ E) as L1.
+  unfold simples_p. destruct (simple s) as [b s1] eqn:E. pose proof (simple_len _ _ _ E) as L1.
   destruct (simples_tail_fuel (length s1) s1) as (l & r & Hst & Hr); [lia|].
   rewrite Hst. eexists _, r. split; [reflexivity|lia].
+Qed.
+Lemma range_p_total s : exists bs r, range_p s = Some (bs, r) /\ length r <= length s.
+Proof.
+  unfold range_p. destruct (hyphen_p s) as [[b r]|] eqn:E; [|apply simples_p_total].
+  destruct (at_alt_end r); [|apply simples_p_total]. apply hyphen_p_len in E. eexists _, r. split; [reflexivity|lia].
 Qed.
 Lemma logical_or_len s r : logical_or s = Some r -> length r < length s.
 Proof.
